@@ -135,6 +135,19 @@ def c08_end_to_end(chk, seed, tier):
         for path, f in files.items():
             if f.get("parse_error"):
                 continue
+            # a dependency that lives in another file must be imported at all (a dropped import leaves no specifier to judge)
+            declared = {d["name"] for d in f["decls"]}
+            used = set()
+            for d in f["decls"]:
+                used |= set(d["free"])
+            imported = {nm for imp in f["imports"] for nm in imp["names"]}
+            lacking = sorted(used - declared - graph.BUILTIN - imported)
+            known_elsewhere = [nm for nm in lacking if any(nm in {d["name"] for d in g.get("decls", [])} for p2, g in files.items() if p2 != path)]
+            if known_elsewhere:
+                chk.violation(f"C08|end-to-end|dependency-not-imported|{graph.placement_kind(it)}",
+                              f"export of {ev['rust']}: {path} uses {known_elsewhere}, declared in another written file, without importing "
+                              f"them", {"root": ev["rust"], "path": path, "imports": f["imports"], "files": sorted(files)},
+                              tags=["end-to-end", "dependency-not-imported"] + graph.dep_ktags(it, _args))
             for imp in f["imports"]:
                 n += 1
                 chk.add_eval()
